@@ -411,3 +411,385 @@ func requiresX(fn *ssa.Function, target func(ssa.Instruction) bool, atoms ...cor
 	}
 	return nil
 }
+
+// ---------------------------------------------------------------------------
+// C05-D7: document-derived reflect values reach reflect.Value.Set /
+// SetMapIndex only after an assignability check.
+//
+// reflect.Value.Set(x) and SetMapIndex(k, e) panic unless x / k / e are
+// assignable to the destination type; equal Kind() is not enough (named types,
+// pointer element types, non-string key types). The rule taints every
+// reflect.Value derived from a document value (reflect.ValueOf of an interface
+// value or of a type-switch binding of one, Index/MapIndex/MapKeys/Elem… of such
+// a value, passed on through reflect.Value parameters and results of in-package
+// functions) and demands that a tainted value reaches the source operand of Set
+// or the key/element operands of SetMapIndex only
+//   - as result #0 of a sanitiser under its err == nil edge, a sanitiser being
+//     recognised by role: an in-package function (typ reflect.Type, v
+//     reflect.Value, …) (reflect.Value[, error]) whose every non-error return is
+//     v itself under a successful v.Type().AssignableTo(typ) test, the result of
+//     Convert(T) or a fresh reflect.New(T) with T computed from typ; or
+//   - on a path where x.Type().AssignableTo(…) succeeded or x's type was compared
+//     equal to another type.
+// Values produced by Convert, reflect.New, MakeSlice, MakeMap… are not tainted.
+
+func isReflectNamed(t types.Type, name string) bool { return isNamedType(t, "reflect", name) }
+
+type assignRule struct {
+	funcs      []*ssa.Function
+	inPkg      map[*ssa.Function]bool
+	taintParam map[*ssa.Parameter]bool
+	taintRet   map[*ssa.Function]map[int]bool
+	sanitizer  map[*ssa.Function]*ssa.Parameter // -> its reflect.Type parameter
+}
+
+func (a *assignRule) docAny(v ssa.Value, seen map[ssa.Value]bool) bool {
+	if v == nil || seen[v] {
+		return false
+	}
+	seen[v] = true
+	if _, ok := v.Type().Underlying().(*types.Interface); !ok {
+		return false
+	}
+	switch x := v.(type) {
+	case *ssa.Const:
+		return false
+	case *ssa.MakeInterface:
+		return a.docVal(x.X, seen)
+	case *ssa.ChangeInterface:
+		return a.docAny(x.X, seen)
+	case *ssa.Call:
+		if !x.Call.IsInvoke() && core.CalleeName(x) == "(reflect.Value).Interface" {
+			return a.docRV(x.Call.Args[0], seen)
+		}
+		return true
+	case *ssa.Phi:
+		for _, e := range x.Edges {
+			if a.docAny(e, seen) {
+				return true
+			}
+		}
+		return false
+	}
+	return true // parameters, loads, lookups, extracts of interface type
+}
+
+// docVal: a concrete value bound from a document value by an assertion / type switch.
+func (a *assignRule) docVal(v ssa.Value, seen map[ssa.Value]bool) bool {
+	if v == nil || seen[v] {
+		return false
+	}
+	seen[v] = true
+	switch x := v.(type) {
+	case *ssa.TypeAssert:
+		return a.docAny(x.X, seen)
+	case *ssa.Extract:
+		if ta, ok := x.Tuple.(*ssa.TypeAssert); ok && x.Index == 0 {
+			return a.docAny(ta.X, seen)
+		}
+	case *ssa.Convert:
+		return a.docVal(x.X, seen)
+	case *ssa.ChangeType:
+		return a.docVal(x.X, seen)
+	case *ssa.Phi:
+		for _, e := range x.Edges {
+			if a.docVal(e, seen) {
+				return true
+			}
+		}
+	case *ssa.UnOp:
+		if x.Op == token.MUL {
+			if al, ok := x.X.(*ssa.Alloc); ok {
+				for _, st := range storesIntoAlloc(al) {
+					if st.Addr == ssa.Value(al) && a.docVal(st.Val, seen) {
+						return true
+					}
+				}
+			}
+		}
+	}
+	return false
+}
+
+var rvPropagate = map[string]bool{
+	"(reflect.Value).Index": true, "(reflect.Value).MapIndex": true, "(reflect.Value).Elem": true,
+	"(reflect.Value).Field": true, "(reflect.Value).Slice": true, "(reflect.Value).Slice3": true,
+	"(reflect.Value).Addr": true, "(*reflect.MapIter).Key": true, "(*reflect.MapIter).Value": true,
+	"(reflect.Value).MapRange": true,
+}
+
+// docRV: a reflect.Value (or []reflect.Value / *MapIter) derived from a document value.
+func (a *assignRule) docRV(v ssa.Value, seen map[ssa.Value]bool) bool {
+	if v == nil || seen[v] {
+		return false
+	}
+	seen[v] = true
+	switch x := v.(type) {
+	case *ssa.Parameter:
+		return a.taintParam[x]
+	case *ssa.Phi:
+		for _, e := range x.Edges {
+			if a.docRV(e, seen) {
+				return true
+			}
+		}
+	case *ssa.Extract:
+		if c, ok := x.Tuple.(*ssa.Call); ok {
+			if g := staticCallee(c); g != nil && a.inPkg[g] {
+				return a.taintRet[g][x.Index]
+			}
+		}
+	case *ssa.UnOp:
+		if x.Op != token.MUL {
+			return false
+		}
+		switch ad := x.X.(type) {
+		case *ssa.IndexAddr: // keys[i] of rv.MapKeys()
+			return a.docRV(ad.X, seen)
+		case *ssa.Alloc:
+			for _, st := range storesIntoAlloc(ad) {
+				if st.Addr == ssa.Value(ad) && a.docRV(st.Val, seen) {
+					return true
+				}
+			}
+		}
+	case *ssa.Call:
+		if x.Call.IsInvoke() {
+			return false
+		}
+		name := core.CalleeName(x)
+		switch {
+		case name == "reflect.ValueOf":
+			return a.docAny(x.Call.Args[0], seen)
+		case name == "(reflect.Value).MapKeys":
+			return a.docRV(x.Call.Args[0], seen)
+		case rvPropagate[name]:
+			return a.docRV(x.Call.Args[0], seen)
+		}
+		if g := staticCallee(x); g != nil && a.inPkg[g] {
+			return a.taintRet[g][0]
+		}
+	}
+	return false
+}
+
+func (a *assignRule) tainted(v ssa.Value) bool { return a.docRV(v, map[ssa.Value]bool{}) }
+
+func isRVLike(t types.Type) bool {
+	if isReflectNamed(t, "Value") {
+		return true
+	}
+	if s, ok := t.Underlying().(*types.Slice); ok {
+		return isReflectNamed(s.Elem(), "Value")
+	}
+	return false
+}
+
+func (a *assignRule) propagate() {
+	for changed, rounds := true, 0; changed && rounds < 20; rounds++ {
+		changed = false
+		for _, f := range a.funcs {
+			for _, b := range f.Blocks {
+				for _, in := range b.Instrs {
+					c := core.AsCall(in)
+					if c == nil {
+						continue
+					}
+					g := staticCallee(c)
+					if g == nil || !a.inPkg[g] {
+						continue
+					}
+					for i, arg := range c.Common().Args {
+						if i < len(g.Params) && isRVLike(g.Params[i].Type()) && !a.taintParam[g.Params[i]] && a.tainted(arg) {
+							a.taintParam[g.Params[i]] = true
+							changed = true
+						}
+					}
+				}
+			}
+			res := f.Signature.Results()
+			for _, ret := range core.Returns(f) {
+				for i := 0; i < res.Len() && i < len(ret.Results); i++ {
+					if isRVLike(res.At(i).Type()) && !a.taintRet[f][i] && a.tainted(core.Result(ret, i)) {
+						if a.taintRet[f] == nil {
+							a.taintRet[f] = map[int]bool{}
+						}
+						a.taintRet[f][i] = true
+						changed = true
+					}
+				}
+			}
+		}
+	}
+}
+
+// rvSame: two reflect.Value operands denote the same value (same register, or
+// reflect.ValueOf applied twice to the same document value).
+func rvSame(x, y ssa.Value) bool {
+	if sameVal(x, y) {
+		return true
+	}
+	cx, ok1 := core.Forward(x).(*ssa.Call)
+	cy, ok2 := core.Forward(y).(*ssa.Call)
+	return ok1 && ok2 && core.CalleeName(cx) == "reflect.ValueOf" && core.CalleeName(cy) == "reflect.ValueOf" && sameDoc(cx.Call.Args[0], cy.Call.Args[0])
+}
+
+// typeOfRV matches rv.Type() (and reflect.TypeOf(x) when rv = reflect.ValueOf(x)).
+func typeOfRV(rv ssa.Value) func(ssa.Value) bool {
+	return func(v ssa.Value) bool {
+		c, ok := core.Forward(v).(*ssa.Call)
+		if !ok || c.Call.IsInvoke() {
+			return false
+		}
+		switch core.CalleeName(c) {
+		case "(reflect.Value).Type":
+			return rvSame(c.Call.Args[0], rv)
+		case "reflect.TypeOf":
+			q, ok := core.Forward(rv).(*ssa.Call)
+			return ok && core.CalleeName(q) == "reflect.ValueOf" && sameDoc(q.Call.Args[0], c.Call.Args[0])
+		}
+		return false
+	}
+}
+
+// assignableAtom: rv.Type().AssignableTo(T) holds (T satisfying typ; nil: any T).
+func assignableAtom(rv ssa.Value, typ func(ssa.Value) bool) core.Atom {
+	return core.BoolVal(func(v ssa.Value) bool {
+		c, ok := v.(*ssa.Call)
+		if !ok || !c.Call.IsInvoke() || c.Call.Method.Name() != "AssignableTo" || !typeOfRV(rv)(c.Call.Value) {
+			return false
+		}
+		return typ == nil || typ(c.Call.Args[0])
+	})
+}
+
+// findSanitizers recognises the sanitising helpers by role.
+func (a *assignRule) findSanitizers() {
+	for _, f := range a.funcs {
+		if f.Parent() != nil {
+			continue
+		}
+		res := f.Signature.Results()
+		if res.Len() == 0 || res.Len() > 2 || !isReflectNamed(res.At(0).Type(), "Value") {
+			continue
+		}
+		if res.Len() == 2 && res.At(1).Type().String() != "error" {
+			continue
+		}
+		typ := paramOfType(f, func(t types.Type) bool { return isReflectNamed(t, "Type") })
+		if typ == nil {
+			continue
+		}
+		fromTyp := func(t ssa.Value) bool {
+			return core.DependsOn(t, func(x ssa.Value) bool { return x == ssa.Value(typ) })
+		}
+		good, n := true, 0
+		for _, ret := range core.Returns(f) {
+			if res.Len() == 2 && errNonNil(a.funcs, core.Result(ret, 1)) {
+				continue
+			}
+			n++
+			r := core.Result(ret, 0)
+			ok := false
+			if c, isCall := r.(*ssa.Call); isCall && !c.Call.IsInvoke() {
+				switch core.CalleeName(c) {
+				case "(reflect.Value).Convert":
+					ok = fromTyp(c.Call.Args[1])
+				case "reflect.New":
+					ok = fromTyp(c.Call.Args[0])
+				}
+			}
+			if !ok {
+				for _, pv := range f.Params {
+					if isReflectNamed(pv.Type(), "Value") && sameVal(r, pv) {
+						at := assignableAtom(pv, func(t ssa.Value) bool { return sameVal(t, typ) })
+						ok = core.EdgeCount(f, at) > 0 && requiresX(f, core.Is(ret), at) == nil
+					}
+				}
+			}
+			if !ok {
+				good = false
+			}
+		}
+		if good && n > 0 {
+			a.sanitizer[f] = typ
+		}
+	}
+}
+
+func c05AssignRule(r *core.Run, o *core.O, funcs []*ssa.Function) {
+	p := r.P
+	a := &assignRule{funcs: funcs, inPkg: map[*ssa.Function]bool{}, taintParam: map[*ssa.Parameter]bool{},
+		taintRet: map[*ssa.Function]map[int]bool{}, sanitizer: map[*ssa.Function]*ssa.Parameter{}}
+	for _, f := range funcs {
+		a.inPkg[f] = true
+	}
+	a.findSanitizers()
+	a.propagate()
+	var sn []string
+	for f := range a.sanitizer {
+		sn = append(sn, core.FuncName(f))
+	}
+	sort.Strings(sn)
+	r.Extra["c05_d7_sanitisers"] = sn
+	// m.Type().Key() / m.Type().Elem()
+	mapPart := func(t, m ssa.Value) string {
+		c, ok := core.Forward(t).(*ssa.Call)
+		if !ok || !c.Call.IsInvoke() {
+			return ""
+		}
+		if n := c.Call.Method.Name(); (n == "Key" || n == "Elem") && typeOfRV(m)(c.Call.Value) {
+			return n
+		}
+		return ""
+	}
+	nSinks := 0
+	for _, f := range funcs {
+		for _, in := range core.Instrs(f, core.CallTo("(reflect.Value).Set", "(reflect.Value).SetMapIndex")) {
+			c := in.(ssa.CallInstruction)
+			args := core.Args(c)
+			name := strings.TrimPrefix(core.CalleeName(c), "(reflect.Value).")
+			roles := map[int]string{1: "source"}
+			if name == "SetMapIndex" {
+				roles = map[int]string{1: "key", 2: "element"}
+			}
+			nSinks++
+			r.Fn(core.FuncName(f))
+			r.Calls++
+			for i := 1; i < len(args); i++ {
+				op := args[i]
+				o.Site(1)
+				// result #0 of a sanitiser, used under err == nil
+				if q, idx := core.ResultOf(core.Forward(op)); q != nil && idx == 0 {
+					if s := staticCallee(q); s != nil && a.sanitizer[s] != nil {
+						if s.Signature.Results().Len() == 2 {
+							if w := requiresX(f, core.Is(in), core.ErrNil(1, core.Is(q))); w != nil {
+								o.Fail(p.InstrPos(in), "%s: %s %s operand comes from %s but is used although that call may have failed (its result is then a placeholder)", core.FuncName(f), name, roles[i], core.FuncName(s))
+							}
+						}
+						if name == "SetMapIndex" {
+							want := map[int]string{1: "Key", 2: "Elem"}[i]
+							if got := mapPart(q.Call.Args[paramIndex(s, a.sanitizer[s])], args[0]); got != "" && got != want {
+								o.Fail(p.InstrPos(in), "%s: SetMapIndex %s operand was made assignable to the map's %s type", core.FuncName(f), roles[i], got)
+							}
+						}
+						continue
+					}
+				}
+				if !a.tainted(op) {
+					continue
+				}
+				at1 := assignableAtom(op, nil)
+				at2 := core.Cmp(token.EQL, typeOfRV(op), func(v ssa.Value) bool { return !typeOfRV(op)(v) })
+				if core.EdgeCount(f, at1)+core.EdgeCount(f, at2) > 0 && requiresX(f, core.Is(in), at1, at2) == nil {
+					continue
+				}
+				o.Fail(p.InstrPos(in), "%s: %s %s operand %s is derived from the document and reaches reflect without an assignability check (no sanitising helper, no Type().AssignableTo / type-equality test on the path): a named, pointer or non-string destination type panics",
+					core.FuncName(f), name, roles[i], core.Describe(op))
+			}
+		}
+	}
+	if nSinks == 0 {
+		o.Unres("no reflect.Value.Set / SetMapIndex call found in %s", mapPkg)
+	}
+}
